@@ -276,6 +276,16 @@ func main() {
 		// Compile does to process-wide state has happened before the parallel part starts
 		compileOnly("true", cfg)
 		epoch, earlier := ep+1, append([]string{}, hist...)
+		// an ACCEPTED call of every name under this configuration: the case's own call is also compiled BEHIND it in one
+		// expression (a second call of a name must be checked like the first)
+		okCall := map[string]string{}
+		for _, c := range todo {
+			if _, have := okCall[c.Name]; !have {
+				if out, _ := compileOnly(c.Text, c.Cfg); out["k"] == "ok" {
+					okCall[c.Name] = c.Text
+				}
+			}
+		}
 		lib.ParallelMap(len(todo), runtime.NumCPU(), func(i int) {
 			c := todo[i]
 			tbl := entry(tableFor(c.Cfg), c.Name)
@@ -295,6 +305,10 @@ func main() {
 					kind, pos = "accept", "nested"
 					src = nested(c.Text)
 				}
+				if kind == "second" {
+					kind, pos = "accept", "nested"
+					src = "iif(true, " + okCall[c.Name] + ", " + c.Text + ")"
+				}
 				if err := w.Write(map[string]any{"id": id, "kind": kind, "pos": pos, "j": j, "cs": c, "proc": order, "epoch": epoch, "hist": earlier,
 					"tbl": tbl, "tbl0": tbl0, "comp": dedupe(comp), "out": dedupe(out), "src": src}); err != nil {
 					lib.Fatal("%v", err)
@@ -304,6 +318,10 @@ func main() {
 			// the same call in argument position of another call must be accepted or rejected alike
 			ncomp, _ := compileOnly(nested(c.Text), c.Cfg)
 			write("nested", 0, ncomp)
+			if first, have := okCall[c.Name]; have {
+				scomp, _ := compileOnly("iif(true, "+first+", "+c.Text+")", c.Cfg)
+				write("second", 0, scomp)
+			}
 			if comp["k"] == "ok" {
 				write("eval", 0, lib.EvalOutcome(forest, c.Text, res, copts(c.Cfg), eopts()))
 			}
